@@ -48,8 +48,8 @@ def model_idx(i):
     return str(i)
 
 
-KINDS = ["list", "string", "vector", "bytes", "range", "wstream", "lazy"]
-STREAMS = {"range", "wstream", "lazy"}
+KINDS = ["list", "string", "vector", "bytes", "range", "wstream", "lazy", "range_adv", "wstream_adv", "lazy_adv", "wstream_tail"]
+STREAMS = {"range", "wstream", "lazy", "range_adv", "wstream_adv", "lazy_adv", "wstream_tail"}
 
 
 def render_seq(kind, n):
@@ -69,6 +69,15 @@ def render_seq(kind, n):
         return "stream([" + ",".join(str(10 + p) for p in range(n)) + "])"
     if kind == "lazy":
         return f"((9 til {9 + n}) lazy_map (+1))"
+    # streams that have already been advanced: the remaining elements are again 10, 11, ...
+    if kind == "range_adv":
+        return f"((8 til {10 + n}) drop 2)"
+    if kind == "wstream_adv":
+        return "(stream([" + ",".join(str(p) for p in [7, 8, 9] + [10 + q for q in range(n)]) + "]) drop 3)"
+    if kind == "lazy_adv":
+        return f"(((7 til {9 + n}) lazy_map (+1)) drop 2)"
+    if kind == "wstream_tail":
+        return "tail(stream([" + ",".join(str(p) for p in [9] + [10 + q for q in range(n)]) + "]))"
     raise ValueError(kind)
 
 
@@ -78,7 +87,7 @@ def seq_len(kind, n):
 
 def elem(kind, p):
     """canonical form of the element at position p when read by index"""
-    if kind in ("list", "vector", "range", "wstream", "lazy"):
+    if kind in ("list", "vector") or kind in STREAMS:
         return f"I{10 + p}"
     if kind == "bytes":
         return f"I{200 + p}"
@@ -202,7 +211,47 @@ def gen_cases(ctx):
                     mb = "_" if b is None else model_idx(b)
                     cases.append(dict(kind=kind, n=n, op="rmslice", form="remove", args=[a, b],
                                       src=f"x := {X}; remove x[{A}:{B}]; x", model=f"rmslice {n} {ma} {mb}"))
+    # nested paths: x[i][j] read / assign / remove address the same positions (rows of lengths 3,2,1,0)
+    rows = [3, 2, 1, 0]
+    XN = "[" + ",".join("[" + ",".join(str(100 * r + c) for c in range(m)) + "]" for r, m in enumerate(rows)) + "]"
+    small = list(range(-5, 5)) + [2 ** 63 - 1, "f"]
+    for i in small:
+        for j in small:
+            I, J = render_idx(i), render_idx(j)
+            for op, src in (("nread", f"x := {XN}; x[{I}][{J}]"),
+                            ("nset", f"x := {XN}; x[{I}][{J}] = 99; x"),
+                            ("nrm", f"x := {XN}; r := remove x[{I}][{J}]; [r, x]"),
+                            ("nopset", f"x := {XN}; x[{I}][{J}] += 1; x")):
+                cases.append(dict(kind="nested", n=4, op=op, form="path2", args=[i, j], src=src, model=None,
+                                  model2=(f"index 4 {model_idx(i)}", j)))
     return cases
+
+
+def nested_oracle(c):
+    """Python nested-list semantics for x[i][j] (read / assign / remove / +=)"""
+    rows = [3, 2, 1, 0]
+    x = [[100 * r + k for k in range(m)] for r, m in enumerate(rows)]
+    i, j = c["args"]
+    def canon(v):
+        return "L[" + ",".join(canon(e) for e in v) + "]" if isinstance(v, list) else f"I{v}"
+    if not isinstance(i, int) or not isinstance(j, int):
+        return "err"
+    try:
+        row = x[i]
+        if c["op"] == "nread":
+            return "ok " + canon(row[j])
+        if c["op"] == "nset":
+            row[j] = 99
+            return "ok " + canon(x)
+        if c["op"] == "nopset":
+            row[j] += 1
+            return "ok " + canon(x)
+        if c["op"] == "nrm":
+            _ = row[j]
+            r = row.pop(j if j >= 0 else len(row) + j)
+            return "ok L[" + canon(r) + "," + canon(x) + "]"
+    except IndexError:
+        return "err"
 
 
 def positions(s):
@@ -247,6 +296,8 @@ def expected_from_model(c, m):
 
 def oracle(c):
     """Python-list semantics, independent of the Coq model. Returns expected text or 'any'."""
+    if c["kind"] == "nested":
+        return nested_oracle(c)
     kind, op, n = c["kind"], c["op"], seq_len(c["kind"], c["n"])
     a = c["args"]
     if op == "index":
@@ -311,6 +362,27 @@ def oracle(c):
     return "any"
 
 
+def nested_expected(c, p, m):
+    """compose the model's inner answer (positions within row p) into the whole nested value"""
+    rows = [3, 2, 1, 0]
+    x = [[100 * r + k for k in range(n)] for r, n in enumerate(rows)]
+    def canon(v):
+        return "L[" + ",".join(canon(e) for e in v) + "]" if isinstance(v, list) else f"I{v}"
+    if not m.startswith("ok "):
+        return m
+    body = m[3:]
+    if c["op"] == "nread":
+        return "ok " + canon(x[p][int(body)])
+    if c["op"] in ("nset", "nopset"):
+        ps = positions(body)
+        x[p] = [(99 if c["op"] == "nset" else x[p][k] + 1) if q == -1 else x[p][k] for k, q in enumerate(ps)]
+        return "ok " + canon(x)
+    a, l = body.split(" ", 1)
+    removed = x[p][int(a)]
+    x[p] = [x[p][q] for q in positions(l)]
+    return "ok L[" + canon(removed) + "," + canon(x) + "]"
+
+
 def observed(r):
     st = r.get("status")
     if st == "ok":
@@ -338,6 +410,22 @@ def evaluate(ctx, cases, runner):
     res = common.run_prog([c["src"] for c in cases], timeout=10.0)
     mlines = [c["model"] for c in cases if c["model"]]
     mres = iter(common.run_model(runner, mlines)) if runner else iter([])
+    nested = [c for c in cases if c.get("model2")]
+    if runner and nested:
+        rows = [3, 2, 1, 0]
+        outer = common.run_model(runner, [c["model2"][0] for c in nested])
+        inner_lines, inner_cases = [], []
+        for c, o in zip(nested, outer):
+            c["nested_outer"] = o
+            if o.startswith("ok "):
+                p = int(o[3:])
+                opn = {"nread": "index", "nset": "set", "nopset": "set", "nrm": "rm"}[c["op"]]
+                inner_lines.append(f"{opn} {rows[p]} {model_idx(c['model2'][1])}")
+                inner_cases.append((c, p))
+            else:
+                c["nested_model"] = "err"
+        for (c, p), m in zip(inner_cases, common.run_model(runner, inner_lines)):
+            c["nested_model"] = nested_expected(c, p, m)
     bad = []
     for c, r in zip(cases, res):
         obs = observed(r)
@@ -347,6 +435,8 @@ def evaluate(ctx, cases, runner):
         mod = None
         if c["model"] and runner:
             mod = expected_from_model(c, next(mres))
+        elif c.get("model2") and runner:
+            mod = c.get("nested_model")
         c["model_says"] = mod
         crashed = obs in ("panic", "hang", "abort", "parse", "badjson")
         if crashed or not agrees(obs, orc):
@@ -363,7 +453,7 @@ def report(ctx, bad):
         if key in seen:
             continue
         seen.add(key)
-        replay = {"case": {k: c[k] for k in ("kind", "n", "op", "form", "args", "src", "model")},
+        replay = {"case": {k: c.get(k) for k in ("kind", "n", "op", "form", "args", "src", "model", "model2")},
                   "program": c["src"], "implementation": c["impl"], "implementation_msg": r.get("msg"),
                   "python_oracle": c["oracle"], "coq_model": c["model_says"]}
         if kind == "property":
@@ -380,15 +470,15 @@ def run(ctx):
     cases = gen_cases(ctx)
     if ctx.quick():
         # quick: every case of length <= 3 and all forms; longer lengths only in expression form
-        cases = [c for c in cases if c["n"] <= 3 or c["kind"] == "mbstring" or c["form"] in ("expr", "assign", "remove", "op")]
+        cases = [c for c in cases if c["n"] <= 3 or c["kind"] == "mbstring" or c["form"] in ("expr", "assign", "remove", "op", "path2")]
     bad = evaluate(ctx, cases, runner)
     report(ctx, bad)
     nt = {(c["kind"], c["n"], c["op"], c["form"], json.dumps(c["args"])) for c in cases if nontrivial(c)}
     ctx.coverage.update({
         "evaluations": len(cases), "distinct_nontrivial": len(nt), "exhaustive": True,
-        "rule": "exhaustive grid: 8 sequence kinds (list,string,multi-byte string,vector,bytes,range stream,stream(list),lazy_map stream) x lengths 0..5 x "
+        "rule": "exhaustive grid: 12 sequence kinds (list,string,multi-byte string,vector,bytes,range stream,stream(list),lazy_map stream, and the three stream kinds after a prefix was consumed by drop/tail) x lengths 0..5 x "
                 "indices/bounds in [-len-3,len+3] + {+-2^31,+-(2^63-1),-2^63,2^63,-2^63-1,+-2^64,10^30, 1.0, 1/2, \"a\", null} x surface forms "
-                "(expression, !!, index(), underscore section, first..last, tail/butlast/take/drop, !?, !%, uncons/unsnoc/only, x[i]=v, |.., remove, pop). "
+                "(expression, !!, index(), underscore section, first..last, tail/butlast/take/drop, !?, !%, uncons/unsnoc/only, x[i]=v, |.., remove, pop), plus two-level paths x[i][j] (read, =, +=, remove) over rows of length 3,2,1,0. "
                 "non-trivial = some index/bound is negative, out of range, extreme or non-integer, or the sequence is a stream / multi-byte string; "
                 "distinct by (kind,len,op,form,args)",
         "samples": [{"program": c["src"], "implementation": c["impl"], "coq_model": c["model_says"]} for c in cases[::max(1, len(cases) // 12)]][:12],
